@@ -404,6 +404,23 @@ def build(rng, tier):
             inp = gen_inputs(r2.fork(f"i{j}"), p, b, SHAPES[j % len(SHAPES)])
             inst = f"{pid}_{j}"
             gy.cases.append(engcheck.Case(pid, inst, history(inst, pid, inp, True), {"inp": inp, "kind": "binary-par-both-columns" + ("-rec" if rec else "-nonrec")}))
+    # duplicate- and absence-sensitive readers of a binary eqrel relation in later strata (serial): count / sum over a class, negation with both / one column bound
+    for v in range(2 if tier == "quick" else 5):
+        p = {"rels": [{"arity": 2}, {"arity": 1}, {"arity": 2, "ds": "eqrel"}, {"arity": 2}, {"arity": 2}, {"arity": 2}, {"arity": 1}],
+             "rules": [{"heads": [(2, [("var", 0), ("var", 1)])], "body": [("cl", 0, [("v", 0), ("v", 1)], [])]},
+                       {"heads": [(3, [("var", 0), ("var", 21)])], "body": [("cl", 1, [("v", 0)], []), ("agg", [21], "count", [], 2, [("k", ("var", 0)), "_"] if v % 2 == 0 else ["_", ("k", ("var", 0))])]},
+                       {"heads": [(4, [("var", 0), ("var", 21)])], "body": [("cl", 1, [("v", 0)], []), ("agg", [21], "sum", [20], 2, [("k", ("var", 0)), ("b", 20)])]},
+                       {"heads": [(5, [("var", 0), ("var", 1)])], "body": [("cl", 1, [("v", 0)], []), ("cl", 1, [("v", 1)], []), ("agg", [], "not", [], 2, [("k", ("var", 0)), ("k", ("var", 1))])]},
+                       {"heads": [(6, [("var", 0)])], "body": [("cl", 1, [("v", 0)], []), ("agg", [], "not", [], 2, [("k", ("var", 0)), "_"])]}]}
+        pid = f"ag{v}"
+        g.add(pid, p)
+        for j in range(ninp):
+            r2 = rng.fork(f"{pid}i{j}")
+            n = r2.range(4, 8)
+            e = list(dict.fromkeys((r2.below(n), r2.below(n)) for _ in range(r2.range(1, 6))))
+            inp = {0: e, 1: [(x,) for x in range(n)], 3: [], 4: [], 5: [], 6: []}
+            inst = f"{pid}_{j}"
+            g.cases.append(engcheck.Case(pid, inst, history(inst, pid, inp, False), {"inp": inp, "kind": "binary-aggneg"}))
     gx.expect = ("F13", "ToEqRel2Ind2", "ternary-third-column (does not compile)",
                  "a ternary eqrel relation read with only its third column bound does not compile: eqrel_ternary.rs maps index [2] to "
                  "`ToEqRel2Ind2`, which is not defined anywhere (rustc: cannot find type `ToEqRel2Ind2`)")
